@@ -30,7 +30,10 @@ func verifHarness_C15_buildURL() {
 	style := (cfg / len(verifC15Pool)) % 3
 	verifMapOrder((cfg / (3 * len(verifC15Pool))) % 4)
 	r := New()
-	r.GET("/other/{x}", verifNop)
+	// a decoy route; its literal segment is longer than any value the bounds allow, so that no
+	// built path can fall under it (a path that an earlier route of the table also matches goes
+	// to that route by the priority rules of C01 - no BuildURL could change that)
+	r.GET("/otherroute/{x}", verifNop)
 	var rt *Route
 	switch cfg % 3 {
 	case 0:
